@@ -157,6 +157,8 @@ struct Case
     int vd;    // extra rotation of operand b against operand a
     int vm;    // step of the rotation between neighbouring positions (1..10; 11 is prime, so every step is a permutation)
     int al;    // Alias form: AL_NONE, AL_CA (result object IS operand a), AL_CB, AL_AB (a and b one object), AL_CAB
+    int se;    // structured elements: 0 = off; else 1 + pat + 9*sel + 27*lane0: a whole cubic element (1,0,0), 0, (p+1,p,0), (0,1,0), (0,0,1),
+               // -1, (x,0,0), (1,1,1), (p,p,p) in operand a / b / both (sel), in every lane or in lane 0 only
     int cv;    // constant sweep: 0 = off; 1..192 = the broadcast / constant operand takes the value 2^k - 1, 2^k, 2^k + 1 (k = (cv-1)/3)
     int bo;    // alias form a:b only: operand b starts `bo` elements after operand a inside the one object (0 = same base pointer)
     int pl;    // placement: 0 = the default address of every array; 1..4 = every array starts at an address = 8*(pl-1) modulo 32
@@ -191,6 +193,7 @@ inline std::string casestr(const Case &c)
     if (c.pl) t += fmt(" pl=%d", c.pl);
     if (c.bo) t += fmt(" bo=%d", c.bo);
     if (c.cv) t += fmt(" cv=%d", c.cv);
+    if (c.se) t += fmt(" se=%d", c.se);
     return t;
 }
 inline std::string ipname(int pat) { return pat < NIP ? std::string(IPN[pat]) : fmt("g%d", pat - NIP); }
@@ -223,6 +226,7 @@ inline bool parse_casestr(const std::string &str, Case &c)
     c.pl = (int)cu(m, "pl", 0);
     c.bo = (int)cu(m, "bo", 0);
     c.cv = (int)cu(m, "cv", 0);
+    c.se = (int)cu(m, "se", 0);
     c.al = AL_NONE;
     std::string al = cs(m, "alias", "-");
     for (int j = 1; j < NAL; j++)
@@ -239,7 +243,7 @@ inline bool is_huge(const Case &c)
     return false;
 }
 inline bool is_gapword(const Case &c) { return c.ip[0] >= NIP || c.ip[1] >= NIP || c.ip[2] >= NIP; }
-inline std::string sig_suffix(const Case &c) { return std::string(c.al ? ".alias" : "") + (is_huge(c) ? ".hugestride" : "") + (is_gapword(c) ? ".idxshape" : "") + (c.pl ? ".placed" : "") + (c.bo ? ".adjacent" : "") + (c.cv ? ".constsweep" : ""); }
+inline std::string sig_suffix(const Case &c) { return std::string(c.al ? ".alias" : "") + (is_huge(c) ? ".hugestride" : "") + (is_gapword(c) ? ".idxshape" : "") + (c.pl ? ".placed" : "") + (c.bo ? ".adjacent" : "") + (c.cv ? ".constsweep" : "") + (c.se ? ".unitelement" : ""); }
 
 // ---------------------------------------------------------------- one case
 struct Counters
@@ -477,6 +481,23 @@ inline std::string run_case(const Case &c, Counters *cnt, std::string *sample = 
                     for (int k = 0; k < MAXL; k++) A.reg[q][i][k] = v;
                 else *cell(q, 0, i) = v;
             }
+        }
+    }
+    if (c.se)
+    {
+        static const u64 SE[9][3] = {{1, 0, 0}, {0, 0, 0}, {P + 1, P, 0}, {0, 1, 0}, {0, 0, 1}, {P - 1, 0, 0}, {0x123456789ABCDEFULL, 0, 0}, {1, 1, 1}, {P, P, P}};
+        int pat = (c.se - 1) % 9, sel = ((c.se - 1) / 9) % 3, l0 = (c.se - 1) / 27;
+        for (int q = 1; q < 3; q++)
+        {
+            const Operand &o = opnd(s, q);
+            if (o.carrier == C_NONE || !(sel == 2 || sel == q - 1)) continue;
+            bool lanewise = o.carrier == C_ARR_UNIT || o.carrier == C_ARR_STRIDE || o.carrier == C_ARR_IDX || o.carrier == C_REG;
+            for (int k = 0; k < (lanewise ? (l0 ? 1 : L) : (o.carrier == C_REGC ? MAXL : 1)); k++)
+                for (int i = 0; i < o.kind; i++)
+                {
+                    if (o.carrier == C_REGC) A.reg[q][i][k] = SE[pat][i];
+                    else *cell(q, k, i) = SE[pat][i];
+                }
         }
     }
     for (int q = 1; q < 3; q++)
@@ -1005,6 +1026,51 @@ inline void run_consts(int si, const char *prop)
     rep().flush();
 }
 
+// ---------------------------------------------------------------- whole-element patterns
+// Every overload, every stride / index configuration of the tag pass: operand a, operand b or both hold a WHOLE element with
+// algebraic meaning -- one (1,0,0), zero, the non-canonical one (p+1,p,0), the basis elements, -1, a base-field element, (1,1,1),
+// the non-canonical zero -- in every lane or in lane 0 only (the other lanes tagged).  The coefficient-wise boundary passes draw
+// the three coefficients from a rotation of the alphabet and never form these triples; a shortcut for "multiply by one" has to be
+// right for every geometry.
+inline void run_units(int si, const char *prop)
+{
+    const Spec &s = ovl_specs[si];
+    Counters cnt;
+    long long nv = 0;
+    auto ax = axes(s);
+    for (auto &r : ax[0])
+        for (auto &a : ax[1])
+            for (auto &b : ax[2])
+                for (int se = 1; se <= 54; se++)
+                {
+                    int sel = ((se - 1) / 9) % 3;
+                    if (s.b.kind == 0 && sel != 0) continue;
+                    Case c;
+                    memset(&c, 0, sizeof c);
+                    c.si = si;
+                    c.vm = 1;
+                    c.se = se;
+                    std::pair<u64, int> cf[3] = {r, a, b};
+                    for (int q = 0; q < 3; q++) { c.s[q] = cf[q].first; c.ip[q] = cf[q].second; }
+                    std::string cs_ = casestr(c);
+                    if (g_cur) { strncpy(g_cur, cs_.c_str(), 4000); g_cur[4000] = 0; }
+                    std::string f = run_case(c, &cnt);
+                    if (f.empty()) continue;
+                    size_t t = f.find('\t');
+                    rep().viol(std::string(prop) + "." + f.substr(0, t) + "." + s.id + sig_suffix(c), cs_, fmt("%s(%s) %s:%d: ", s.name, s.decl, s.file, s.line) + f.substr(t + 1));
+                    if (++nv >= 8) goto done;
+                }
+done:
+    if (g_cur) g_cur[0] = 0;
+    const char *pre = OVL_EXACT ? "asan_" : "";
+    rep().stat(std::string(pre) + "states", cnt.cases);
+    rep().stat(std::string(pre) + "transitions", cnt.cases);
+    rep().stat(std::string(pre) + "evaluations", cnt.evals);
+    if (!OVL_EXACT) rep().stat("distinct_nontrivial", cnt.cases);
+    rep().stat(std::string(pre) + "unitelement_states", cnt.cases);
+    rep().flush();
+}
+
 // ---------------------------------------------------------------- placements
 // Every overload with every memory operand starting at each of the four addresses 0, 8, 16, 24 modulo 32 (an Element needs
 // 8-byte alignment only; vector code may take an aligned fast path or use an instruction that needs alignment): unit / stride 5,
@@ -1345,6 +1411,15 @@ inline int ovl_main(int argc, char **argv)
         {
             g_cur[0] = 0;
             Iso h = isolated([&]() { run_consts(si, prop); }, 300);
+            if (h.kind != 0)
+            {
+                report_abnormal(h, si, prop, g_cur);
+                rep().flush();
+            }
+        }
+        {
+            g_cur[0] = 0;
+            Iso h = isolated([&]() { run_units(si, prop); }, 300);
             if (h.kind != 0)
             {
                 report_abnormal(h, si, prop, g_cur);
